@@ -2,6 +2,7 @@ import Pep508.Driver.Marker
 import Pep508.Model.MarkerParse
 import Pep508.Model.ReqParse
 import Pep508.Model.ReqShow
+import Pep508.Model.ErrDisplay
 import Pep508.Model.Dnf
 import Pep508.Model.Interner
 import Pep508.Model.Kind
@@ -165,6 +166,22 @@ def runShowReq (args : List String) : String :=
     match charsOfHex name, hexList extras, k, m with
     | some n, some ex, some k, some m => hexOfChars (showReq ⟨n, ex, k, m⟩)
     | _, _, _, _ => "bad-op"
+  | _ => "bad-op"
+
+/-- `errdisp <input> <start> <len> <widths>`: the underline `Display for Pep508Error` prints;
+    `widths` gives `unicode_width` of each char of the input (`0`,`1`,`2`, `n` = none), an external function -/
+def runErrDisp (args : List String) : String :=
+  match args with
+  | [input, start, len, widths] =>
+    match charsOfHex input, start.toNat?, len.toNat? with
+    | some inp, some s, some l =>
+      let ws := (if widths == "-" then [] else widths.toList).map fun c => if c == 'n' then 0 else c.toNat - 48
+      let width := fun (from_ : Nat) (t : List Char) => ((ws.drop from_).take t.length).sum
+      match errDisplaySlices inp s l with
+      | none => "panic"
+      | some (pre, none) => s!"ul={width 0 pre}:1"
+      | some (pre, some u) => s!"ul={width 0 pre}:{width pre.length u}"
+    | _, _, _ => "bad-op"
   | _ => "bad-op"
 
 /-- `expand <text> <vars> <cwd>`: `expand_env_vars` -/
